@@ -65,6 +65,8 @@ type Contract struct {
 type Callsite struct {
 	Callee string
 	C      *Clause
+	// Set != "": a ghost assignment "$Set := C" made just before the call, not an assertion
+	Set string
 }
 
 // Region: obligations over a sub-graph of a function that is otherwise outside the subset.
@@ -121,6 +123,8 @@ type Specs struct {
 func newSpecs() *Specs {
 	return &Specs{Contracts: map[string]*Contract{}, Pures: map[string]*PureFn{}, Lemmas: map[string]*Lemma{}}
 }
+
+var ghostSetRe = regexp.MustCompile(`^\$(\w+)\s*:=\s*(.+)$`)
 
 var keywordRe = regexp.MustCompile(`^(package|func|requires|ensures|modifies|loop|trusted|inline|noinline|dispatch|dyncall|nonblocking|immutable|ghost|maypanic|pure|uninterp|lemma|global|region|from|to|params|callsite|opaque|reveal)\b`)
 
@@ -397,7 +401,15 @@ func (sp *Specs) ParseFile(path string, defaultPkg string) {
 				sp.errf(path, rc.line, "callsite needs 'callee: expr'")
 				continue
 			}
-			if c := mkClause(strings.TrimSpace(rest[i+1:]), rc.line); c != nil {
+			body := strings.TrimSpace(rest[i+1:])
+			if m := ghostSetRe.FindStringSubmatch(body); m != nil {
+				// ghost code: "callsite f: $g := expr" assigns the ghost variable just before each call of f
+				if c := mkClause(strings.TrimSpace(m[2]), rc.line); c != nil {
+					cur.Callsites = append(cur.Callsites, &Callsite{Callee: strings.TrimSpace(rest[:i]), C: c, Set: m[1]})
+				}
+				continue
+			}
+			if c := mkClause(body, rc.line); c != nil {
 				cur.Callsites = append(cur.Callsites, &Callsite{Callee: strings.TrimSpace(rest[:i]), C: c})
 			}
 		case "trusted":
